@@ -10,3 +10,16 @@ check("C07", "exploration",
       "Exhaustive over the whole input space n=0..255: node CalculateQuorum, the copy compiled into the explorer backend, and the formulas extracted from Messages.sol and governance.ral are evaluated for every n and compared with floor(2n/3)+1 and the BFT inequalities. The space is finite and fully enumerated, so this decides the property.",
       "Contract formulas are extracted from source text by a recognised-subset parser with uint256 floor-division semantics (no solc / Ralph compiler in the sandbox); leaving the subset is exit 2, not a verdict.",
       "exhaustive enumeration of n=0..255 against Go code and extracted contract formulas", "DESIGN.md 5/C07", "E-ENUM + contract model")
+
+check("C05", "exploration",
+      "Bounded exhaustive enumeration against the real vaa.Marshal/Unmarshal: a boundary product of VAA values (all pairs of non-default fields for every signature-count x index-pattern x payload-length combination, payloads up to 64 KiB, 1 MiB thorough) must round-trip field-for-field with the same digest; every byte string of length 0..2 and every structured single edit (prefix, 7 substitutions per offset, deletion, 2 insertions per offset, every signature-count byte, tail extensions) of ~20 valid encodings must either be rejected with (nil, err) or re-encode to exactly itself; inputs are exact-capacity so over-reads panic. No sampling; exploration level because the value/byte spaces are infinite and only the stated boundary families are complete.",
+      "Field alphabets are boundary values read off the code; coverage-guided fuzzing (named in the quantifier) is a different family and is replaced by the exhaustive edit sets.",
+      "exhaustive boundary-product and single-edit enumeration against the real codec", "DESIGN.md 5/C05", "E-ENUM")
+check("C06", "exploration",
+      "Bounded exhaustive enumeration against the real VerifySignatures (tree copy and the copy pinned by the explorer backend): 14 guardian-list shapes of length 0..4 including repeated addresses x every signature sequence of length <=2 over (index, signer, 9 corruption kinds), every uncorrupted sequence of length 3 (4 in thorough), every valid subset with every single corruption; for n=19 and 255 runs and spread subsets at quorum-1/quorum/quorum+1/n with every single-step corruption. Oracle: an independent predicate (own body layout, own double keccak, ecrecover).",
+      "crypto.Ecrecover is shared by oracle and implementation (trusted primitive). Lists of length 5..18 and 20..254 are not enumerated.",
+      "exhaustive enumeration of signature sequences and single-step corruptions vs an independent predicate", "DESIGN.md 5/C06", "E-ENUM")
+check("C04", "exploration",
+      "Bounded exhaustive enumeration against the real serializer: every body tuple with up to 4 (thorough 5) fields away from default over boundary alphabets (incl. sub-second times, payload shapes p / p||00 / 00||p / 999..65536 bytes) x 5 header variants. Oracles: byte equality with a layout written from the statement, digest = keccak(keccak(body)), independence from header and sub-second part, injectivity by a map over all produced bodies, no aliasing of returned bodies; every Marshal() output is replayed through layout tables extracted at check time from Messages.sol parseVM and governance.ral parseAndVerifyVAA (offsets, widths, body start, hash rule).",
+      "Contract sources interpreted through a recognised syntactic subset (no solc/Ralph compiler); leaving the subset is exit 2.",
+      "exhaustive boundary-product enumeration + replay through extracted contract layout tables", "DESIGN.md 5/C04", "E-ENUM + contract model")
